@@ -37,6 +37,7 @@ import NanoVerif.Lemmas.CompileExprExample
 import NanoVerif.Lemmas.CompileStmt
 import NanoVerif.Lemmas.CompileStmtExample
 import NanoVerif.Lemmas.CompileMain
+import NanoVerif.Lemmas.CompileMainExample
 
 namespace NanoVerif.C01
 open NanoVerif Gen
@@ -274,5 +275,19 @@ theorem compile_main_correct (rt : Ty) (body : List Stmt) (hb : BodyR body) (m :
     cases hv with
     | int x => left; exact ⟨x, rfl, by simpa using ho2⟩
     | bool b => right; exact ⟨b, rfl, by simpa using ho2⟩
+
+/-- non-vacuity of `compile_main_correct`: `fn main() -> int { let mut x: int = 5  while (< x 7) { set x (+ x 1) }
+    (println x)  return x }` - `compileProgram` succeeds, the reference exits with status 7 after writing "7\n",
+    and the theorem yields that `execute` on the compiled module ends normally with that output and `7` on the stack -/
+example : ∃ n sf v, (∀ k, execute CompileEx3.m (n + 1 + k) = (sf, .done)) ∧ sf.out = [55, 10] ∧ sf.stack = [v] ∧
+      ((∃ x : I64, v = .int x ∧ 7 = (x.toInt % 256).toNat) ∨ (∃ b : Bool, v = .bool b ∧ 7 = 0)) :=
+  compile_main_correct .int CompileEx3.body
+    (.letS _ _ _ _ _ (.num 5) (.stmt _ _ (.while _ _ (.strict .T_LT .LT _ _ rfl (.ident "x") (.num 7))
+      (fun st hst => by
+        have : st = .setS "x" (.prefixOp .T_PLUS [.ident "x", .num 1]) := by simpa using hst
+        subst this
+        exact .set _ _ (.strict .T_PLUS .ADD _ _ rfl (.ident "x") (.num 1))))
+      (.stmt _ _ (.print true _ (.ident "x")) (.ret _ (.ident "x")))))
+    CompileEx3.m CompileEx3.compileProgram_ok (by decide) 20 [55, 10] 7 CompileEx3.runs
 
 end NanoVerif.C01
